@@ -42,11 +42,15 @@ def run(ctx):
     K.check_base64_chunking(ctx, f)
 
     # ---- C11.a name tables --------------------------------------------------------------
+    flow = _NameFlow(f)
     for mod in MODS:
         wsets = {}
         welems = set()
+        # the writers of the module: its write_xml functions and whatever functions of the module they call (a private
+        # helper writing a child element on their behalf), closures included
+        writers = _writer_bodies(f, mod)
         for n, b in f.bodies.items():
-            if not n.startswith(mod) or is_derived(b) or "write_xml" not in n:
+            if n not in writers:
                 continue
             for c in b.calls():
                 if b.is_cleanup(c.bb):
@@ -62,19 +66,16 @@ def run(ctx):
                     wsets.setdefault(gid, set()).add(nm.group(1).encode() if nm else ("?" + a[1]).encode())
                 if (c.res or "").startswith("xml::encode::") and c.name in ("element", "element_opt"):
                     for t in K.arg_terms(c)[1:]:
-                        for x in walk(t):
-                            if x[0] == "bytes":
-                                welems.add(x[1])
-                            elif x[0] == "cdef":
-                                v = _const_local(f, x[1])
-                                welems.add(v if v is not None else ("?" + x[1]).encode())
+                        # a name that is a parameter of a helper (or a capture of a closure) stands for the names handed
+                        # in at the call sites; a name that cannot be traced to literals is an unknown name (not parsed)
+                        welems |= flow.names(b, t, unknown=True)
         for g in wsets:
             wsets[g] -= {b"xmlns", b"xmlns:xsi", b"xsi:schemaLocation"}
         rsets = []
         rnames = set()
         unknown_ok = []
         for n, b in f.bodies.items():
-            if not n.startswith(mod) or is_derived(b) or "write_xml" in n:
+            if not n.startswith(mod) or is_derived(b) or n in writers:
                 continue
             oc = outcome(b)
             if "::{closure" in n and b.arg_count >= 2 and b.local_ty(2).startswith("&[u8]"):
@@ -90,13 +91,8 @@ def run(ctx):
             for c in b.calls():
                 if c.name in ("eq", "ne") and not b.is_cleanup(c.bb):
                     for t in K.arg_terms(c):
-                        for x in walk(t):
-                            if x[0] == "bytes":
-                                rnames.add(x[1])
-                            elif x[0] == "cdef":
-                                v = _const_local(f, x[1])
-                                if v:
-                                    rnames.add(v)
+                        # comparing with a parameter / a captured value is comparing with what the callers hand in
+                        rnames |= flow.names(b, t, unknown=False)
         written = sorted({frozenset(v) for v in wsets.values() if v}, key=lambda x: sorted(x))
         # every written attribute set must be contained in an accepted set (optional attributes may be absent)
         missing = [sorted(x.decode() for x in w) for w in written if not any(w <= r for r in rsets)]
@@ -234,43 +230,17 @@ def run(ctx):
             cls = c1 if cls is None else (cls & c1)
         if not preds:
             pr = ["no all/any over the bytes of the name found in " + vn]
-        ctx.ob("R-CLS", "Handle::verify_name:class[%s]" % ctx.cfg, cls == want and not pr,
-               "handle bytes are exactly [-_A-Za-z0-9/]%s" % (" plus backslash (compat)" if ctx.cfg == "C" else ""), where=vb.loc,
-               detail={"extracted": absint.fmt_class(cls), "problems": pr})
         pn = vb.local_name(1) or "_1"
         names = {"len(%s)" % pn: "n"}
-        paths, it, err = K.run_absint(f, vn, sym_names=names)
-        if paths is None:
-            ctx.ob("R-REG", "Handle::verify_name:analysable", False, "cannot establish: " + str(err), where=vb.loc)
+        # the same scan written as a loop (`for b in s.bytes() { … }`): decided round by round
+        scan = None if preds else _byte_scan_loop(f, vb)
+        if scan is not None:
+            _check_scan_loop(ctx, f, vn, vb, scan, names, want)
         else:
-            allsym = [s for p in paths for s in p.zone.syms if re.match(r"^[\w:]+::(all|any)\(", s)]
-            a = allsym[0] if allsym else "all"
-            # `find(bad)` / `position(bad)` in place of all / any: the answer is an Option the function branches on
-            findc = sorted({c[0].rsplit(" is ", 1)[0] for p in paths for c in p.conds
-                            if re.match(r"^[\w:]+::(find|position)\(.* is (Some|None)$", c[0])})
-            # value of the combinator when every byte is allowed
-            good = 0 if re.match(r"^[\w:]+::any\(", a) else 1
-            okk = lambda p: outcome_str(p.outcome) == "return Ok(())"
-            errk = lambda p: outcome_str(p.outcome).startswith("return Err(")
-            if not allsym and len(findc) == 1:
-                fc = findc[0] + " is "
-                only_fc = lambda p: all(c[0].startswith(fc) for c in p.conds)
-                found = lambda p: any(c[0].startswith(fc) and (c[0] == fc + "Some") == c[1] for c in p.conds)
-                for row, cons, pred, text, flt in (
-                        ("all bytes ok, 1≤len≤255", RC("n", 1, 255), okk, "Ok", lambda p: not found(p)),
-                        ("empty", RC("n", 0, 0), errk, "Err", lambda p: not found(p)),
-                        ("len≥256", RC("n", 256, None), errk, "Err", lambda p: not found(p)),
-                        ("some byte not allowed", [], errk, "Err", found)):
-                    K.check_regions(ctx, "R-REG", "Handle::verify_name", paths, it,
-                                    [(row, cons, lambda p, pred=pred: pred(p) and only_fc(p), text)], vb.loc,
-                                    allow_opaque=True, path_filter=flt)
-            else:
-                K.check_regions(ctx, "R-REG", "Handle::verify_name", paths, it, [
-                    ("all bytes ok, 1≤len≤255", RC(a, good, good) + RC("n", 1, 255), okk, "Ok"),
-                    ("empty", RC(a, good, good) + RC("n", 0, 0), errk, "Err"),
-                    ("len≥256", RC(a, good, good) + RC("n", 256, None), errk, "Err"),
-                    ("some byte not allowed", RC(a, 1 - good, 1 - good), errk, "Err"),
-                ], vb.loc)
+            ctx.ob("R-CLS", "Handle::verify_name:class[%s]" % ctx.cfg, cls == want and not pr,
+                   "handle bytes are exactly [-_A-Za-z0-9/]%s" % (" plus backslash (compat)" if ctx.cfg == "C" else ""), where=vb.loc,
+                   detail={"extracted": absint.fmt_class(cls), "problems": pr})
+            _check_combinator_regions(ctx, f, vn, vb, names)
         fs = [f.body(n) for n in C09._methods(f, HANDLE, "from_str", "std::str::FromStr") if f.body(n) is not None]
         if fs:
             from engine.rules import MustPass
@@ -285,6 +255,131 @@ def run(ctx):
             htys.add((root_fn(f, c.body.name), c.name))
     ctx.ob("R-WHO", "Handle:never-written-as-text", not htys,
            "handles (whose unchecked Handle::new admits any string) are only written as escaped attribute values", detail=sorted(htys))
+
+
+def _writer_bodies(f, mod):
+    """Names of the bodies of module `mod` that write XML for it: the write_xml functions (public interface), the
+    functions of the module they call, transitively, and the closures of all of these."""
+    roots = {root_fn(f, n) for n, b in f.bodies.items() if n.startswith(mod) and "write_xml" in n and not is_derived(b)}
+    todo = list(roots)
+    while todo:
+        r = todo.pop()
+        for n, b in f.bodies.items():
+            if n != r and root_fn(f, n) != r:
+                continue
+            for c in b.calls():
+                if c.is_static and c.res and c.res.startswith(mod) and c.res in f.bodies and not b.is_cleanup(c.bb):
+                    r2 = root_fn(f, c.res)
+                    if r2 not in roots and not is_derived(f.bodies[c.res]):
+                        roots.add(r2)
+                        todo.append(r2)
+    return {n for n, b in f.bodies.items() if n.startswith(mod) and not is_derived(b) and (n in roots or root_fn(f, n) in roots)}
+
+
+class _NameFlow:
+    """The literal names a value can stand for: byte literals and Name constants in its provenance term; when the value
+    *is* a parameter of a crate function, the names of the corresponding argument at every static call site; when it is a
+    capture of a closure, the names of the captured value where the closure is created (recursively, bounded)."""
+
+    def __init__(self, f):
+        self.f = f
+        self._creator = None
+        self._sites = None
+
+    def _index(self):
+        self._creator, self._sites = {}, {}
+        for b in self.f.bodies.values():
+            for cc in b.closures_created():
+                self._creator.setdefault(cc[2], []).append((b, cc[3]))
+            for c in b.calls():
+                if c.is_static and c.res in self.f.bodies and not b.is_cleanup(c.bb):
+                    self._sites.setdefault(c.res, []).append(c)
+
+    def names(self, body, term, unknown=False, depth=0):
+        """unknown=True: a value that cannot be traced contributes a marker name b'?…' (fail closed for written names);
+        unknown=False: it contributes nothing (fail closed for accepted names)."""
+        out = set()
+        for x in walk(term):
+            if x[0] == "bytes":
+                out.add(x[1])
+            elif x[0] == "cdef":
+                v = _const_local(self.f, x[1])
+                if v is not None:
+                    out.add(v)
+                elif unknown:
+                    out.add(("?" + x[1]).encode())
+        t = strip_deep(term)
+        while t[0] == "mvar":
+            t = strip_deep(t[3])
+        if t[0] not in ("param", "upvar"):
+            return out
+        marker = {("?%s of %s" % (t[1], short(body.name))).encode()} if unknown else set()
+        if depth > 4:
+            return out | marker
+        if self._sites is None:
+            self._index()
+        got = []
+        # an accepted name is traced only through values that are names by type (xml Name / byte string): a parameter
+        # of another type compared with a literal is no element name, whatever its callers hand in
+        namety = lambda ty: "xml::decode::Name" in (ty or "") or "[u8]" in (ty or "")
+        if t[0] == "param" and "{closure" not in body.name.rsplit("::", 1)[-1]:
+            idx = [i for i in range(1, body.arg_count + 1) if body.local_name(i) == t[1]
+                   and (unknown or namety(body.local_ty(i)))]
+            for c in self._sites.get(body.name, []) if len(idx) == 1 else []:
+                at = K.arg_terms(c)
+                if idx[0] - 1 < len(at):
+                    got.append(self.names(c.body, at[idx[0] - 1], unknown, depth + 1))
+        elif t[0] == "upvar":
+            ups = [u[0] for u in body.rec.get("upvars", [])]
+            uty = {u[0]: " ".join(str(x) for pr in u[1].get("p", []) for x in pr) for u in body.rec.get("upvars", [])}
+            for cb, st in self._creator.get(body.name, []) if t[1] in ups and (unknown or namety(uty.get(t[1]))) else []:
+                ct = K.sym_of(cb).rvalue(st["rv"])
+                caps = ct[2] if ct[0] == "closure" else ()
+                j = ups.index(t[1])
+                if j < len(caps):
+                    got.append(self.names(cb, caps[j], unknown, depth + 1))
+        if not got or any(not g for g in got):
+            out |= marker
+        for g in got:
+            out |= g
+        return out
+
+
+def _check_combinator_regions(ctx, f, vn, vb, names):
+    """R-REG for the name check written with a combinator over the bytes (`all` / `any` / `find` / `position`): the
+    combinator's answer is one symbol of the interpretation, the decision table over (answer, length) is the spec's."""
+    paths, it, err = K.run_absint(f, vn, sym_names=names)
+    if paths is None:
+        ctx.ob("R-REG", "Handle::verify_name:analysable", False, "cannot establish: " + str(err), where=vb.loc)
+    else:
+        allsym = [s for p in paths for s in p.zone.syms if re.match(r"^[\w:]+::(all|any)\(", s)]
+        a = allsym[0] if allsym else "all"
+        # `find(bad)` / `position(bad)` in place of all / any: the answer is an Option the function branches on
+        findc = sorted({c[0].rsplit(" is ", 1)[0] for p in paths for c in p.conds
+                        if re.match(r"^[\w:]+::(find|position)\(.* is (Some|None)$", c[0])})
+        # value of the combinator when every byte is allowed
+        good = 0 if re.match(r"^[\w:]+::any\(", a) else 1
+        okk = lambda p: outcome_str(p.outcome) == "return Ok(())"
+        errk = lambda p: outcome_str(p.outcome).startswith("return Err(")
+        if not allsym and len(findc) == 1:
+            fc = findc[0] + " is "
+            only_fc = lambda p: all(c[0].startswith(fc) for c in p.conds)
+            found = lambda p: any(c[0].startswith(fc) and (c[0] == fc + "Some") == c[1] for c in p.conds)
+            for row, cons, pred, text, flt in (
+                    ("all bytes ok, 1≤len≤255", RC("n", 1, 255), okk, "Ok", lambda p: not found(p)),
+                    ("empty", RC("n", 0, 0), errk, "Err", lambda p: not found(p)),
+                    ("len≥256", RC("n", 256, None), errk, "Err", lambda p: not found(p)),
+                    ("some byte not allowed", [], errk, "Err", found)):
+                K.check_regions(ctx, "R-REG", "Handle::verify_name", paths, it,
+                                [(row, cons, lambda p, pred=pred: pred(p) and only_fc(p), text)], vb.loc,
+                                allow_opaque=True, path_filter=flt)
+        else:
+            K.check_regions(ctx, "R-REG", "Handle::verify_name", paths, it, [
+                ("all bytes ok, 1≤len≤255", RC(a, good, good) + RC("n", 1, 255), okk, "Ok"),
+                ("empty", RC(a, good, good) + RC("n", 0, 0), errk, "Err"),
+                ("len≥256", RC(a, good, good) + RC("n", 256, None), errk, "Err"),
+                ("some byte not allowed", RC(a, 1 - good, 1 - good), errk, "Err"),
+            ], vb.loc)
 
 
 def _byte_predicates(f, b):
@@ -309,6 +404,127 @@ def _byte_predicates(f, b):
         else:
             out.append((c.name, "?" + render(pt), 0))
     return out
+
+
+def _byte_scan_loop(f, b):
+    """(loop head, block of the `next` call) of the loop in b that takes the bytes of b's first parameter one at a time:
+    an `Iterator::next` on a CFG cycle whose receiver is an iterator over exactly those bytes (no `skip` / `take` / `rev`
+    adaptor in between).  None unless there is exactly one such call and its cycle has a single entry."""
+    pn = re.escape(b.local_name(1) or "_1")
+    sccs = b.cycles_sccs()
+    found = []
+    for c in b.calls():
+        if c.name != "next" or c.trait != "std::iter::Iterator" or len(c.args) != 1 or b.is_cleanup(c.bb):
+            continue
+        recv = strip_deep(K.arg_terms(c)[0])
+        while recv[0] == "mvar":
+            recv = strip_deep(recv[3])
+        if not re.match(r"^(?:str::bytes\(%s\)|%s)$" % (pn, pn), render(recv)):
+            continue
+        comp = [sc for sc in sccs if c.bb in sc]
+        if len(comp) != 1:
+            continue
+        heads = [x for x in comp[0] if any(p not in comp[0] and not b.is_cleanup(p) for p in b.preds(x))]
+        if len(heads) == 1:
+            found.append((heads[0], c.bb))
+    return found[0] if len(found) == 1 else None
+
+
+_NEXT_COND = re.compile(r"^[\w:<>' ]*\bnext\(.*\) is (Some|None)$")
+
+
+def _check_scan_loop(ctx, f, vn, vb, scan, names, want):
+    """The name check written as a loop over the bytes, decided as *prologue + one round from any loop state*.
+
+    The prologue (entry → loop head, interpreted once) gives the lengths with which the scan is entered and the answers
+    given without scanning.  One round is interpreted from the loop head with every local unknown (so whatever the loop
+    carries from round to round — flags, counters — is an opaque condition and fails the rows below) and the length kept
+    in the interval the prologue admits (the parameter is immutable).  A round has three fates, told apart by the answer
+    of `next` and by the byte alone: the input is exhausted → the function's answer; the byte sends the round back to
+    the loop head ("continue"); the byte ends the function.  By induction over rounds the function answers Ok exactly
+    when the prologue admits the length, every byte is of the continuing class, and the exhausted round answers Ok —
+    the same table the combinator spelling is held to, with the same obligation keys."""
+    head, _ = scan
+    cont_text = "loop at bb%d of " % head
+    okk = lambda p: outcome_str(p.outcome) == "return Ok(())"
+    errk = lambda p: outcome_str(p.outcome).startswith("return Err(")
+    cont = lambda p: p.outcome[0] == "diverge" and str(p.outcome[1]).startswith(cont_text)
+    problems = []
+    # prologue: every path from the entry, each block at most once (a path that comes round to the head stops there)
+    pro, it0, err = K.run_absint(f, vn, sym_names=names, max_visits=1)
+    if pro is None:
+        ctx.ob("R-REG", "Handle::verify_name:analysable", False, "cannot establish: " + str(err), where=vb.loc)
+        return
+    scanned = lambda p: bool(p.conds) and _NEXT_COND.match(p.conds[0][0]) is not None
+    early = [p for p in pro if not scanned(p)]                  # answered (or lost) before the first byte was asked for
+    spans = sorted({(p.zone.bounds("n") if "n" in p.zone.syms else (0, absint.INF)) for p in pro if scanned(p)})
+    # one round from the head, for each length interval the prologue lets through
+    rounds = []
+    it = it0
+    for lo, hi in spans:
+        it = absint.Interp(f, max_visits=1, sym_names=names)
+        st = absint.State()
+        st.locals, st.zone, st.effects, st.conds, st.trace, st.visits, st.fresh = {}, absint.Zone(), [], [], [], {}, 0
+        if lo != -absint.INF:
+            st.zone.add(None, "n", -lo)
+        if hi != absint.INF:
+            st.zone.add("n", None, hi)
+        try:
+            it.explore(vb, st, head)
+        except absint.Unsupported as e:
+            problems.append("round not analysable: %s" % e)
+            continue
+        rounds += it.paths
+        problems += list(it.imprecise)
+    if not spans:
+        problems.append("no path from the entry reaches the scan")
+    # the fate of a round: (answer of next, nothing else opaque)
+    fcs = sorted({p.conds[0][0].rsplit(" is ", 1)[0] for p in rounds if scanned(p)})
+    fc = (fcs[0] + " is ") if len(fcs) == 1 else None
+    if fc is None:
+        problems.append("the rounds ask %d different iterators for the next byte" % len(fcs))
+
+    def kind(p):
+        if not p.conds:
+            return "early"
+        if fc is not None and len(p.conds) == 1 and p.conds[0][1] is True and p.conds[0][0] in (fc + "Some", fc + "None"):
+            return p.conds[0][0][len(fc):].lower()
+        return "opaque"
+    byte_sym = (fcs[0] + "↓Some.0") if fc else None
+
+    def byte_range(p):
+        if byte_sym in p.zone.syms:
+            lo, hi = p.zone.bounds(byte_sym)
+            return set(range(max(0, int(lo)), min(255, int(hi)) + 1))
+        return set(range(256))
+    # R-CLS: the bytes that send a round back to the head, and only they, are the allowed ones
+    some = [p for p in rounds if kind(p) == "some"]
+    cls, other = set(), set()
+    for p in some:
+        (cls if cont(p) else other).update(byte_range(p))
+    for p in rounds:
+        if cont(p) and kind(p) != "some":
+            problems.append("a round continues on something other than the byte: %s" % (p.conds,))
+        if kind(p) == "opaque":
+            problems.append("opaque condition in a round: %s" % (p.conds,))
+    if cls & other:
+        problems.append("the fate of bytes %s does not depend on the byte alone" % absint.fmt_class(cls & other))
+    if (cls | other) != set(range(256)) and some:
+        problems.append("bytes %s have no fate" % absint.fmt_class(set(range(256)) - cls - other))
+    ctx.ob("R-CLS", "Handle::verify_name:class[%s]" % ctx.cfg, cls == want and not problems,
+           "handle bytes are exactly [-_A-Za-z0-9/]%s" % (" plus backslash (compat)" if ctx.cfg == "C" else ""), where=vb.loc,
+           detail={"extracted": absint.fmt_class(cls), "form": "scan loop, head bb%d" % head, "problems": problems[:6]})
+    # R-REG: answers given without a byte in hand (early returns, exhausted input) by length; a byte that does not
+    # continue ends in Err
+    allp = early + rounds
+    no_byte = lambda p: kind(p) != "some"
+    for row, cons, pred, text, flt in (
+            ("all bytes ok, 1≤len≤255", RC("n", 1, 255), lambda p: okk(p) and kind(p) == "none", "Ok", no_byte),
+            ("empty", RC("n", 0, 0), lambda p: errk(p) and kind(p) in ("early", "none"), "Err", no_byte),
+            ("len≥256", RC("n", 256, None), lambda p: errk(p) and kind(p) in ("early", "none"), "Err", no_byte),
+            ("some byte not allowed", [], errk, "Err", lambda p: kind(p) == "some" and not cont(p))):
+        K.check_regions(ctx, "R-REG", "Handle::verify_name", allp, it, [(row, cons, pred, text)], vb.loc,
+                        allow_opaque=True, path_filter=flt)
 
 
 def _const_local(f, cname):
